@@ -69,6 +69,15 @@ def run(ctx):
             lines = [asmio.render(prog[0]), asmio.render(dict(st, optext=asmio.roperand(st) + tail)), asmio.render(prog[2])]
             glued.append(Case(prog, lines, focus=2, tag="fcc-glued-tail"))
     asmcheck.run_suite(ctx, "fcc-glued-tail", glued if thorough else glued[rnd.randrange(3)::3])
+    # the SAME list text under FCB and under FDB in one program (both orders, also twice each): one byte per value here, two bytes per value there
+    same = []
+    for _ in range(4000 if thorough else 400):
+        vals = [ex(num(rnd.choice([0, 1, 17, 34, 51, 127, 128, 255, rnd.randint(0, 255)]), rnd.choice(["dec", "hex2", "hex", "bin8", "dec0"]))) for _ in range(rnd.choice([2, 3, 3, 4, 8]))]
+        a, b = stmt("FCB", "fcb", label="LA", vals=vals), stmt("FDB", "fdb", label="LB", vals=[dict(v) for v in vals])
+        order = rnd.choice([[a, b], [b, a], [a, b, dict(a, label="LC")], [b, a, dict(b, label="LC")]])
+        prog = [dict(asmcheck.asmrun.NOP, label="L1")] + order + [dict(asmcheck.asmrun.NOP, label="L2")]
+        same.append(Case(prog, focus=len(prog) - 1, tag="fcb-fdb-same-text"))
+    asmcheck.run_suite(ctx, "fcb-fdb-same-list-text", same)
     asmcheck.run_suite(ctx, "directive-random", random_cases(rnd, 200000 if thorough else 8000))
     ctx.cov["rule"] = ("TLC-enumerated FCB/FDB lists (length 1,2,3,64 x literal spellings, negatives, boundary and out-of-range values), FCC strings from the string "
                        "class lattice (empty, blanks, blank runs, leading/trailing blank, ';', characters outside the operand alphabet, the other quotes, length 255) x "
